@@ -64,7 +64,7 @@ Record fstate := {
   fs_end : bool }.
 
 (* record of a finalization (ghost snapshot of what the file had) *)
-Record finrec := { fr_fi : nat; fr_key : Z; fr_ok : bool; fr_total : Z; fr_sidecar : bool; fr_have : list Z }.
+Record finrec := { fr_fi : nat; fr_key : Z; fr_ok : bool; fr_cs : Z; fr_total : Z; fr_sidecar : bool; fr_have : list Z }.
 
 Inductive outcome := Success | Fail | Panicked.
 
@@ -139,7 +139,7 @@ Definition finalize (s : st) (f : fstate) (ok io_ok : bool) : st :=
   {| manifest := manifest s; resume := resume s; prior := prior s;
      active := remove_active (fs_key f) (active s);
      done_keys := fs_key f :: done_keys s;
-     fins := fins s ++ [{| fr_fi := fs_fi f; fr_key := fs_key f; fr_ok := ok'; fr_total := fs_total f;
+     fins := fins s ++ [{| fr_fi := fs_fi f; fr_key := fs_key f; fr_ok := ok'; fr_cs := fs_cs f; fr_total := fs_total f;
                            fr_sidecar := fs_sidecar f; fr_have := fs_have f |}];
      completed := c'; begun := begun s; ctlq := ctlq s; ctlerr := ctlerr s;
      ctl_reader_gone := ctl_reader_gone s; dataerrq := dataerrq s;
